@@ -10,7 +10,9 @@ import (
 	"go.nanomsg.org/mangos/v3/protocol"
 	"go.nanomsg.org/mangos/v3/protocol/xpair"
 	"go.nanomsg.org/mangos/v3/protocol/xpub"
+	_ "go.nanomsg.org/mangos/v3/transport/tcp"
 	"go.nanomsg.org/mangos/v3/vh/kit"
+	"go.nanomsg.org/mangos/v3/vh/vnet"
 	"go.nanomsg.org/mangos/v3/vh/vt"
 	"go.nanomsg.org/mangos/v3/vz/vexplore"
 	"go.nanomsg.org/mangos/v3/vz/vsched"
@@ -30,6 +32,7 @@ func init() {
 				NeedCounters: []string{"attached", "refused-by-protocol"}},
 			{Name: fmt.Sprintf("dialer-xpub-hist-D%d", d), Mode: "hist", Reset: kit.ResetGlobals, Body: func() { dialerHist(d) },
 				NeedCounters: []string{"attached", "detached", "redialled"}},
+			{Name: "tcp-aborted-handshakes-then-peer", Mode: "enum", Reset: kit.ResetGlobals, Body: tcpAborted, NeedCounters: []string{"attached-after-aborted-handshake"}},
 			{Name: "listener-sched-attach-vs-drop", Mode: "sched", Bound: b, Reset: kit.ResetGlobals, Body: schedAttachDrop},
 		}
 	})
@@ -181,6 +184,18 @@ func (w *world) describe(st *pstate) {
 		if p.Listener().Address() != w.addr {
 			kit.Failf("pipe-endpoint-address", "accepted pipe: Listener().Address() = %q", p.Listener().Address())
 		}
+	}
+	if w.ep == nil {
+		// real TCP wrapper over the in-memory network: the addresses are those of the connection
+		host := w.addr[len("tcp://"):]
+		for opt, want := range map[string]string{mangos.OptionRemoteAddr: "remote:" + host, mangos.OptionLocalAddr: "local:" + host} {
+			v, err := p.GetOption(opt)
+			a, ok := v.(interface{ String() string })
+			if err != nil || !ok || a.String() != want {
+				kit.Failf("pipe-tcp-addr", "pipe %08x: option %s = %v (%s), the connection's is %q", st.id, opt, v, kit.ErrName(err), want)
+			}
+		}
+		return
 	}
 	want := fmt.Sprintf("vt-remote:%s:%d", w.ep.Name, st.order)
 	if v, err := p.GetOption(mangos.OptionRemoteAddr); err != nil || v.(string) != want {
@@ -355,4 +370,95 @@ func schedAttachDrop() {
 	}
 	kit.Observe("%d/%d", w.list[0].attached, w.list[0].detached)
 	w.finish()
+}
+
+// tcpAborted: on the real transport/tcp + conn.go (over the in-memory network) connections that
+// end during the handshake - after n header bytes, by EOF or reset, or with a bad header - produce
+// no event at all, and the listener (dialer) carries on: the next good connection gets
+// Attaching and Attached.
+func tcpAborted() {
+	side := kit.ChooseFree(2)
+	n := kit.ChooseFree(9)
+	how := []string{"eof", "reset", "bad-header"}[kit.ChooseFree(3)]
+	if how == "bad-header" && n != 8 {
+		return
+	}
+	if n == 8 && how != "bad-header" {
+		return
+	}
+	addr := "127.0.0.1:4300"
+	w := newWorld(xpub.NewProtocol, "tcp://"+addr)
+	ep := net.VGet(addr)
+	hdr := []byte{0, 'S', 'P', 0, byte(w.sock.Info().Peer >> 8), byte(w.sock.Info().Peer), 0, 0}
+	abort := func(h *net.VConn) {
+		b := append([]byte{}, hdr[:n]...)
+		if how == "bad-header" {
+			b[7] = 1
+		}
+		h.Feed(b)
+		switch how {
+		case "eof":
+			h.EOF()
+		case "reset":
+			h.Reset()
+		}
+	}
+	events := func() (int, int) {
+		a, d := 0, 0
+		for _, st := range w.list {
+			a += st.attaching
+			d += st.attached
+		}
+		return a, d
+	}
+	if side == 0 {
+		if err := w.sock.Listen("tcp://" + addr); err != nil {
+			kit.Failf("setup", "Listen: %s", kit.ErrName(err))
+		}
+		abort(ep.Connect())
+		kit.Quiesce()
+		kit.Sleep(50 * time.Millisecond)
+		kit.Quiesce()
+		if a, _ := events(); a != 0 {
+			kit.Failf("event-for-aborted-handshake", "a connection that ended during the handshake (%d bytes, %s) produced %d Attaching event(s)", n, how, a)
+		}
+		g := ep.Connect()
+		g.Feed(hdr)
+		kit.Quiesce()
+		kit.Sleep(50 * time.Millisecond)
+		kit.Quiesce()
+	} else {
+		w.dialer = true
+		ep.HarnessListen(true)
+		d, err := w.sock.NewDialer("tcp://"+addr, map[string]interface{}{mangos.OptionDialAsynch: true, mangos.OptionReconnectTime: 10 * time.Millisecond})
+		if err != nil {
+			kit.Failf("setup", "NewDialer: %s", kit.ErrName(err))
+		}
+		if err := d.Dial(); err != nil {
+			kit.Failf("setup", "Dial: %s", kit.ErrName(err))
+		}
+		kit.Quiesce()
+		if len(ep.Dialed) != 1 {
+			kit.Failf("setup", "dialer made %d connections", len(ep.Dialed))
+		}
+		abort(ep.Dialed[0])
+		kit.Quiesce()
+		kit.Sleep(200 * time.Millisecond)
+		kit.Quiesce()
+		if a, _ := events(); a != 0 {
+			kit.Failf("event-for-aborted-handshake", "a dialed connection that ended during the handshake (%d bytes, %s) produced %d Attaching event(s)", n, how, a)
+		}
+		if len(ep.Dialed) < 2 {
+			kit.Failf("dialer-gave-up", "the server ended the handshake (%d bytes, %s) and the dialer never tried again", n, how)
+		}
+		ep.Dialed[len(ep.Dialed)-1].Feed(hdr)
+		kit.Quiesce()
+	}
+	a, d := events()
+	if a != 1 || d != 1 {
+		kit.Failf("connection-ignored-after-aborted-handshake", "after a handshake aborted with %d bytes / %s the next well-behaved connection got Attaching x%d, Attached x%d (want 1, 1)", n, how, a, d)
+	}
+	kit.Count("attached-after-aborted-handshake")
+	kit.Observe("side=%d n=%d %s", side, n, how)
+	kit.Must("Socket.Close", func() { _ = w.sock.Close() })
 }
